@@ -513,6 +513,85 @@ def ag_static_graph(eng, res, rule="R-AG-STATIC-GRAPH"):
     res.ob(rule, f, "nodes-copied", "every atom of the stochastic graph is a node of the static template with its attributes", f.node, e is not None)
 
 
+def ag_entry_flags(eng, res, rule="R-AG-ENTRY-FLAGS"):
+    """An atom entered over a stochastic / termination / transition edge arrives through one of its descriptors: it
+    offers none of its own links (all three permissions False).  The start atom and the atoms added by the static
+    completion have used none: they offer all three."""
+    res.doc(rule, "an atom entered over a non-static edge offers none of its own links (the entering descriptor is used up); start / static-completion atoms offer all")
+    n = 0
+    for f in methods(eng):
+        if f.name == "_add_node":
+            continue
+        fl = eng.flow(f)
+        for c in calls(f, "_add_node"):
+            st = c
+            while not isinstance(st, ast.stmt):
+                st = st._parent
+            var = st.targets[0].id if isinstance(st, ast.Assign) and isinstance(st.targets[0], ast.Name) else None
+            flags = {}
+            callee = eng.prog.func(f"{CLS}._add_node")
+            names = callee.params[1:]
+            for i, a in enumerate(c.args):
+                if i < len(names):
+                    flags[names[i]] = a
+            for k in c.keywords:
+                flags[k.arg] = k.value
+            vals = {k: (v.value if isinstance(v, ast.Constant) else "?") for k, v in flags.items() if k.endswith("_allowed")}
+            # entered over a link: the new id is an endpoint of a bond created in this function
+            carriers = _carriers(f, {var}) if var else set()
+            entered = any(any(isinstance(a, ast.Name) and a.id in carriers for a in e.args[:2]) for e in calls(f, "add_edge") if src(e.func.value) == "self.graph") and f.name != "_fill_static_edges"
+            want = (not entered)
+            ok = len(vals) == 3 and all(v is want for v in vals.values())
+            n += 1
+            res.unit(f)
+            res.ob(rule, f, f"flags:{f.name}@{n}", ("an atom entered over a link is added with all three permissions False" if entered else "a start / static-completion atom is added with all three permissions True"),
+                   c, ok, f"{vals}")
+    res.floor(rule, n, 5)
+
+
+def ag_block_end(eng, res, rule="R-AG-BLOCK-END"):
+    """When a block's target mass is reached every pending stochastic and termination option of the block is dropped
+    (the termination made for the test is kept as it is); capping happens only inside the block's growth loop."""
+    res.doc(rule, "at the end of a block all pending stochastic / termination options are dropped unconditionally; _terminate_graph is only called from the block's growth loop; the start search visits every atom")
+    f = eng.prog.func(f"{CLS}._fill_stochastic_edges")
+    res.unit(f)
+    cfg = eng.flow(f).cfg
+    clears = [c for c in calls(f, "clear") if isinstance(c.func.value, ast.Subscript) and isinstance(c.func.value.slice, ast.Constant) and c.func.value.slice.value in ("stochastic_edges", "termination_edges")]
+    kinds = {}
+    for c in clears:
+        lp = [l for l in cfg.enclosing_loops(c) if isinstance(l, ast.For)]
+        inner = lp[0] if lp else None
+        uncond = inner is not None and not [t for t, p in cfg.guard_exprs(cfg.node_of(c)) if isinstance(getattr(t, "_parent", None), ast.If) and _within(getattr(t, "_parent"), inner)]
+        whole = inner is not None and src(inner.iter) in ("self.graph", "self.graph.nodes", "self.graph.nodes()")
+        kinds[c.func.value.slice.value] = uncond and whole
+    ok = kinds == {"stochastic_edges": True, "termination_edges": True}
+    res.ob(rule, f, "drop-all-options", "when the target mass is reached, the stochastic and the termination options of every atom are cleared (no exemption)", clears[0] if clears else f.node, ok, f"{kinds}")
+    callers = sorted({g.name for g in methods(eng) for c in calls(g, "_terminate_graph")})
+    res.ob(rule, f, "capping-callers", "capping (_terminate_graph) is only invoked by the block's growth loop", f.node, callers == ["_fill_stochastic_edges"], f"called from {callers}")
+    # start search
+    g = eng.prog.func(f"{CLS}._find_start_source")
+    res.unit(g)
+    loops = [l for l in own_nodes(g.node) if isinstance(l, ast.For) and src(l.iter) in ("self.stochastic_graph", "self.stochastic_graph.nodes", "self.stochastic_graph.nodes()")]
+    ok = False
+    why = f"{len(loops)} loop(s) over all atoms"
+    if len(loops) == 1:
+        lp = loops[0]
+        v = lp.target.id if isinstance(lp.target, ast.Name) else None
+        rets = [r for r in ast.walk(lp) if isinstance(r, ast.Return) and isinstance(r.value, ast.Name) and r.value.id == v]
+        trees = [c for c in ast.walk(lp) if isinstance(c, ast.Call) and callee_name(c) == "dfs_tree"]
+        ok = bool(rets) and len(trees) == 1 and src(trees[0].args[0]) == "self.stochastic_graph" and src(kwarg(trees[0], "source") or (trees[0].args[1] if len(trees[0].args) > 1 else ast.Constant(None))) == v
+        why = f"returns the loop's atom: {bool(rets)}; spanning tree from it: {len(trees) == 1}"
+    res.ob(rule, g, "start-search", "the start atom is searched among all atoms of the graph (the first one that reaches every atom)", g.node, ok, why)
+
+
+def _within(n, anc):
+    while n is not None:
+        if n is anc:
+            return True
+        n = getattr(n, "_parent", None)
+    return False
+
+
 def check(eng, res):
     from ..fresh import fresh_flags
 
@@ -531,6 +610,8 @@ def check(eng, res):
     n = ag_rng(eng, res)
     res.floor("R-AG-RNG", n, 5)
     ag_fresh_state(eng, res)
+    ag_entry_flags(eng, res)
+    ag_block_end(eng, res)
     n = ag_consume(eng, res)
     res.floor("R-AG-CONSUME", n, 3)
     ag_static_graph(eng, res)
